@@ -38,7 +38,12 @@ macro_rules! fixed_cmp_fixed {
                     Widest::Unsigned(bits) => bits as <Self as Fixed>::Bits,
                     Widest::Negative(bits) => bits as <Self as Fixed>::Bits,
                 };
-                conv.dir == Ordering::Equal && !conv.overflow && rhs_bits == self.to_bits()
+                // the converted bits must keep the sign of rhs, otherwise rhs is
+                // outside the range of Self and cannot be equal
+                conv.dir == Ordering::Equal
+                    && !conv.overflow
+                    && rhs_bits.is_negative() == rhs.to_bits().is_negative()
+                    && rhs_bits == self.to_bits()
             }
         }
 
@@ -66,6 +71,10 @@ macro_rules! fixed_cmp_fixed {
                     Widest::Unsigned(bits) => bits as <Self as Fixed>::Bits,
                     Widest::Negative(bits) => bits as <Self as Fixed>::Bits,
                 };
+                if rhs_bits.is_negative() && !rhs.to_bits().is_negative() {
+                    // rhs is above the maximum of signed Self
+                    return Some(Ordering::Less);
+                }
                 Some(self.to_bits().cmp(&rhs_bits).then(conv.dir))
             }
 
@@ -88,6 +97,10 @@ macro_rules! fixed_cmp_fixed {
                     Widest::Unsigned(bits) => bits as <Self as Fixed>::Bits,
                     Widest::Negative(bits) => bits as <Self as Fixed>::Bits,
                 };
+                if rhs_bits.is_negative() && !rhs.to_bits().is_negative() {
+                    // rhs is above the maximum of signed Self
+                    return true;
+                }
                 self.to_bits() < rhs_bits
                     || (self.to_bits() == rhs_bits && conv.dir == Ordering::Less)
             }
